@@ -4,6 +4,7 @@ from __future__ import annotations
 import json
 from fractions import Fraction
 
+from . import c09_routes as R
 from . import c09_util as U
 from .common import add_failure, bump, new_outcome
 
@@ -24,7 +25,8 @@ ASSUMPTIONS = [
     "branch lengths in the real-code check are positive dyadic rationals k/64 (float sums exact); the model tie also uses missing and zero lengths",
     "'leaves its argument unmodified' is checked on the implementation by deep snapshots (name, name_loaded, params, structure), it is not a theorem of the value model",
     "label quoting/escaping and the regular-expression tokeniser are exercised (real tokeniser on real writer output == model token list), not modelled",
-    "lin_rajan_moret / matching_cluster (scipy linear_sum_assignment) are exercised against a brute-force optimum on small trees, not modelled",
+    "lin_rajan_moret / matching_cluster (scipy linear_sum_assignment) are exercised against an exact assignment optimum (subset DP, <= 12 clusters), not modelled",
+    "XML round trip only with names free of newick/XML metacharacters and blanks; JSON routes only with names free of newick metacharacters (known finding C09-json-unescaped-names)",
 ]
 
 ERRS = ("TreeError", "ValueError", "AttributeError", "TypeError")
@@ -171,12 +173,6 @@ def correspondence(ctx):
         "(tree, chain) whose last step changes the ordered nested form or raises"
     )
     rng = ctx.subrng("corr")
-    # which `unrooted` does the implementation under test have?  The model carries both the one
-    # as coded in the pinned commit and the repaired one (fixes/C09-unrooted-sister-edge.patch);
-    # a probe on the known witness selects the variant the tie is checked against.
-    probe = ["", None, [["n2", Fraction(7, 8), [["a", Fraction(5, 4), []], ["b", Fraction(13, 8), []]]], ["c", Fraction(2), []]]]
-    fixed = Fraction(float(U.build_real(probe).unrooted().get_distances()[("a", "b")])) == Fraction(23, 8)
-    bump(out, "unrooted_variant", "repaired" if fixed else "as-coded")
     cases = []  # (nested, ops, meta)
     small = U.exhaustive_small_trees()
     for t in small:
@@ -222,7 +218,7 @@ def correspondence(ctx):
             if len(obs[-1][0][2]) < 2:
                 break  # a single-child root (keep_root=True): later re-rooting would turn the old root into a tip
         reals.append((t, chain, meta, obs))
-        reqs.append(("ops", dict(tree=U.frac_json(t), spec=True, unrooted_fixed=fixed, ops=[_model_op(o) for o in chain])))
+        reqs.append(("ops", dict(tree=U.frac_json(t), spec=True, ops=[_model_op(o) for o in chain])))
     replies = ctx.driver.batch(reqs)
     for (t, chain, meta, obs), rep in zip(reals, replies):
         out["evaluations"] += 1
@@ -650,12 +646,24 @@ def spec_check(ctx, budget):
         "deepcopy, rooted_at, rooted_with_tip, root_at_midpoint, unrooted, sorted, get_sub_tree on random trees "
         "(3-25 tips, positive dyadic lengths, quoted-character names) and all shapes on 3-5 tips x every new root / tip: "
         "tip set, bipartition set among retained tips, every tip-to-tip path length (exact), argument unmodified "
-        "(deep snapshot); tree distances: zero iff equal topology, symmetric, equal to independent split-set / "
-        "brute-force assignment computation.  non-trivial = distinct (tree, chain) whose last step is not a no-op"
+        "(deep snapshot); witnesses of repaired defects replayed first.  Every tree-to-tree comparison (tree_distance with all "
+        "method names, lin_rajan_moret(), compare_by_subsets/_names/_tip_distances, subsets, node.distance) on pairs with "
+        "different degrees of resolution (cluster-count gap 0..3+, polytomies, reordered children, other root for unrooted), "
+        "both argument orders: symmetric, zero iff same topology, equal to split-set / exact assignment (DP) computations.  "
+        "Pruning through every route (get_sub_tree x tipsonly x keep_root x ignore_missing, remove_deleted+prune, "
+        "remove/remove_node+prune, prune on single-child nodes) for whole nested clades, all tip children, all but one child, "
+        "root-becomes-unary and random subsets; copy/deepcopy/copy_topology, bifurcating/multifurcating/unrooted, LCA queries, "
+        "edge vector, tip_to_tip_distances, max distances, set_tip_distances, scale_branch_lengths, get_newick in all 16 flag "
+        "combinations read back by make_tree(underscore_unmunge=True/False), write/load_tree for .nwk/.tree/.json/.xml.  "
+        "non-trivial = distinct (tree, chain/route) whose result differs from the input"
     )
     rng = ctx.subrng(f"spec{budget}")
     small = U.exhaustive_small_trees()
     cases = []
+    # witnesses of repaired defects (status "fixed" in known_findings.d/C09.json) are replayed first:
+    # they are never matched as known findings, so a regression is a VIOLATION whose replay is the old witness
+    for w in _fixed_witnesses():
+        cases.append((U.unfrac_json(w["tree"]), [list(o) for o in w["ops"]]))
     if budget >= 1:
         step = 1 if budget >= 8 else max(1, 4 // budget)
         for t in small[::step]:
@@ -704,62 +712,23 @@ def spec_check(ctx, budget):
         bump(out, "spec_ntips", len(U.n_tips(t)))
         if len(out["samples"]) < 4 and len(chain) >= 3 and len(U.n_tips(t)) <= 6:
             out["samples"].append(dict(tree=U.frac_json(t), ops=chain))
-    _spec_treedist(ctx, out, rng, small, budget)
+    R.spec_tree_comparisons(ctx, out, rng, small, budget, _fail)
+    R.spec_prune_routes(ctx, out, rng, small, budget, _fail)
+    R.spec_queries_io(ctx, out, rng, small, budget, _fail)
     return out
 
 
-def _spec_treedist(ctx, out, rng, small, budget):
-    methods_r = ["rooted_robinson_foulds", "rrf", "matching_cluster", "mc", "rf", "matching", None]
-    methods_u = ["unrooted_robinson_foulds", "urf", "lin_rajan_moret", "lrm", "rf", "matching", None]
-    for _ in range(120 * budget):
-        if rng.random() < 0.4:
-            t = rng.choice(small)
-        else:
-            n = rng.randint(4, 9)
-            t = U.rand_tree(rng, n, rng.random() < 0.5, rng.random() < 0.4, rng.choice(["all", "none"]), "pos", False)
-        t2, kind = _variant(rng, t)
-        if rng.random() < 0.3:
-            t2, _ = _variant(rng, t2)
-        rooted = len(t[2]) == 2
-        if (len(t2[2]) == 2) != rooted:
-            continue
-        a, b = U.build_real(t), U.build_real(t2)
-        inp = dict(a=U.frac_json(t), b=U.frac_json(t2))
-        same_r = U.oracle_clusters(t) == U.oracle_clusters(t2)
-        same_u = U.oracle_bips(t) == U.oracle_bips(t2)
-        for m in methods_r if rooted else methods_u:
-            out["evaluations"] += 1
-            key = m or "default"
-            try:
-                d1 = a.tree_distance(b, method=m)
-                d2 = b.tree_distance(a, method=m)
-            except ValueError as e:
-                if "number of edges must be equal" in str(e):
-                    bump(out, "treedist_real", f"{key}:unequal-edge-count-ValueError")
-                    continue
-                _fail(out, f"tree_distance({key}) raised on trees with equal tip sets", inp, "a number", repr(e), f"treedist-raise:{key}")
-                continue
-            if d1 != d2:
-                _fail(out, f"tree_distance({key}) is not symmetric", inp, d1, d2, f"treedist-sym:{key}")
-                continue
-            same = same_r if rooted else same_u
-            if (d1 == 0) != same:
-                _fail(out, f"tree_distance({key}) zero <-> equal topology fails", inp, "zero iff same topology: same=" + str(same), d1, f"treedist-zero:{key}")
-                continue
-            if m in ("rooted_robinson_foulds", "rrf") or (m == "rf" and rooted):
-                want = len(U.oracle_clusters(t) ^ U.oracle_clusters(t2))
-            elif m in ("unrooted_robinson_foulds", "urf") or (m == "rf" and not rooted):
-                want = len(U.oracle_bips(t) ^ U.oracle_bips(t2))
-            elif rooted:
-                want = U.oracle_matching_cluster(t, t2) if len(U.oracle_clusters(t)) <= 7 and len(U.oracle_clusters(t2)) <= 7 else None
-            else:
-                want = U.oracle_lrm(t, t2) if len(U.oracle_clusters(t)) <= 7 else None
-            if want is not None and int(d1) != want:
-                _fail(out, f"tree_distance({key}) differs from independent computation", inp, want, int(d1), f"treedist-value:{key}")
-                continue
-            bump(out, "treedist_real", f"{key}:{'zero' if d1 == 0 else 'positive'}")
-            if d1 != 0:
-                out["nontrivial"].add("tdr:" + key + json.dumps(inp))
+def _fixed_witnesses():
+    from .common import VERIF
+
+    fp = VERIF / "known_findings.d" / "C09.json"
+    if not fp.exists():
+        return []
+    res = []
+    for f in json.loads(fp.read_text()).get("findings", []):
+        if f.get("property") == "C09" and f.get("status") == "fixed" and "witness" in f:
+            res.append(f["witness"])
+    return res
 
 
 # --------------------------------------------------------------------------
@@ -772,8 +741,8 @@ def match_finding(f, k):
 
 def _replay_input(inp):
     out = new_outcome()
-    if "a" in inp:
-        return None
+    if "a" in inp or "ops" not in inp:
+        return _replay_route(inp)
     t = U.unfrac_json(inp["tree"])
     tree = U.build_real(t)
     nested = U.real_nested(tree)
@@ -785,6 +754,47 @@ def _replay_input(inp):
         tree = _apply_real(tree, op)
         nested = U.real_nested(tree)
     return out["failures"][0] if out["failures"] else None
+
+
+def _replay_route(inp):
+    """re-run the route checks on the recorded input (tree pairs / pruning / io routes)"""
+    import random
+
+    class _Ctx:
+        pass
+
+    out = new_outcome()
+    rng = random.Random(0)
+    if "a" in inp:
+        ta, tb = U.unfrac_json(inp["a"]), U.unfrac_json(inp["b"])
+        a, b = U.build_real(ta), U.build_real(tb)
+        rooted = len(ta[2]) == 2
+        for m in R.ROOTED_METHODS if rooted else R.UNROOTED_METHODS:
+            try:
+                d1, d2 = a.tree_distance(b, method=m), b.tree_distance(a, method=m)
+            except ValueError:
+                continue
+            want = R._independent(m, rooted, ta, tb)
+            if d1 != d2 or (want not in (None, "unequal") and int(d1) != want):
+                print("tree_distance", m, "a->b", d1, "b->a", d2, "independent", want)
+                return dict(what="tree distance", expected=want, got=[d1, d2])
+        R._other_comparisons(out, a, b, ta, tb, rooted, inp, _fail)
+        return out["failures"][0] if out["failures"] else None
+    if "tree" in inp:
+        import tempfile
+        from pathlib import Path
+
+        t = U.unfrac_json(inp["tree"])
+        if "keep" in inp:
+            R.prune_case(out, _fail, t, inp.get("kind", "replay"), list(inp["keep"]), rng)
+        else:
+            with tempfile.TemporaryDirectory(prefix="verif_C09_replay_") as d:
+                R.io_case(out, _fail, t, rng, Path(d), 0)
+        want = inp.get("sig")
+        for f in out["failures"]:
+            if want is None or f["sig"] == want:
+                return f
+    return None
 
 
 def check_witness(ctx, w):
